@@ -265,12 +265,15 @@ def resolution(ctx):
     (base / "elsewhere" / "c17res_a.py").write_text(marker("elsewhere"))
     (base / "elsewhere" / "c17res_b.py").write_text(marker("elsewhere-b"))
     (base / "cwd" / "crashes.py").write_text(marker("cwd-crashes"))
+    (base / "elsewhere" / "c17res_b.sh").write_text("#!/bin/sh\n")
     cwd = os.getcwd()
     os.chdir(base / "cwd")
     cases = [
         ("c17res_a", "cwd"), ("c17res_a.py", "cwd"), (str(base / "elsewhere" / "c17res_b.py"), "elsewhere-b"),
         ("../elsewhere/c17res_b.py", "elsewhere-b"), ("crashes", "cwd-crashes"), ("hangs", "builtin"), ("outputs.py", "builtin"),
         ("c17res_nope", "error"), (str(base / "elsewhere" / "c17res_nope.py"), "error"), (str(base / "nodir" / "hangs.py"), "error"),
+        # only a trailing `.py` is dropped from a name: other extensions are part of it, and no such module exists
+        ("hangs.txt", "error"), ("c17res_a.cfg", "error"), (str(base / "elsewhere" / "c17res_b.sh"), "error"), ("outputs.pyc", "error"),
     ]
     try:
         for extra_path in (None, str(base / "elsewhere"), str(base / "cwd")):
